@@ -51,6 +51,22 @@ func Main() {
 		fmt.Printf("%x\n", hostileInput(job.Shard))
 		os.Exit(0)
 	}
+	if job.Part == "race" {
+		var scs []*Scenario
+		switch job.Check {
+		case "C04":
+			scs = c04Scenarios()
+		case "C05":
+			scs = c05Scenarios("thorough")
+		case "C02":
+			scs = c02bScenarios()
+		case "C17":
+			scs = c17bScenarios()
+		}
+		n := RacePass(scs, 30)
+		fmt.Printf("race pass: %d free runs of %d scenarios\n", n, len(scs))
+		os.Exit(0)
+	}
 	if job.Replay != "" {
 		os.Exit(Replay(&job))
 	}
